@@ -112,42 +112,7 @@ func ruleC02(c *Ctx, r *Result) {
 	}
 	r.Floor("C02.1", 3)
 
-	// ---- C02.2 dense paths: loaded heap and btree are written back
-	for _, fn := range c.LibFuncs() {
-		if shortPkg(fnPkgPath(fn)) != "hdf5" {
-			continue
-		}
-		var loadsHeap, loadsTree bool
-		var mutates bool
-		for _, site := range callsIn(fn) {
-			n := callName(c, site)
-			if n == "structures.WritableFractalHeap.LoadFromFile" {
-				loadsHeap = true
-			}
-			if n == "structures.WritableBTreeV2.LoadFromFile" {
-				loadsTree = true
-			}
-			if hasSuffixAny(n, ".InsertObject", ".DeleteObject", ".OverwriteObject", ".InsertRecord", ".UpdateRecord", ".DeleteRecord", ".DeleteRecordLazy", ".DeleteRecordWithRebalancing",
-				"core.ModifyDenseAttribute", "core.DeleteDenseAttribute") {
-				mutates = true
-			}
-		}
-		if !(loadsHeap && loadsTree && mutates) {
-			continue
-		}
-		for _, ret := range successReturns(fn) {
-			okH := mustPrecede(ret, func(in ssa.Instruction) bool {
-				call, ok := in.(*ssa.Call)
-				return ok && callName(c, call) == "structures.WritableFractalHeap.WriteAt"
-			})
-			okT := mustPrecede(ret, func(in ssa.Instruction) bool {
-				call, ok := in.(*ssa.Call)
-				return ok && callName(c, call) == "structures.WritableBTreeV2.WriteAt"
-			})
-			r.Check(okH, "C02.2", c.Name(fn)+"#heap-written-back", c.InstrPos(ret), "the modified heap is written back before success")
-			r.Check(okT, "C02.2", c.Name(fn)+"#index-written-back", c.InstrPos(ret), "the modified name index is written back before success")
-		}
-	}
+	denseWriteBackRule(c, r, "C02.2")
 	// compact paths: the header object that was modified is the one written back
 	for _, n := range []string{"hdf5.writeCompactAttribute", "hdf5.deleteCompactAttributeFromHeader", "hdf5.transitionToDenseAttributes"} {
 		fn := c.Fn(r, n)
@@ -456,4 +421,45 @@ func init() {
 			r.Errorf("C02.8: only %d error-returning call sites on the attribute write/delete paths", n)
 		}
 	})
+}
+
+// denseWriteBackRule: in every root-package function that loads the dense structures (heap and name index) and changes them,
+// each success return is preceded by the write-back of both.
+func denseWriteBackRule(c *Ctx, r *Result, rule string) {
+	// ---- C02.2 dense paths: loaded heap and btree are written back
+	for _, fn := range c.LibFuncs() {
+		if shortPkg(fnPkgPath(fn)) != "hdf5" {
+			continue
+		}
+		var loadsHeap, loadsTree bool
+		var mutates bool
+		for _, site := range callsIn(fn) {
+			n := callName(c, site)
+			if n == "structures.WritableFractalHeap.LoadFromFile" {
+				loadsHeap = true
+			}
+			if n == "structures.WritableBTreeV2.LoadFromFile" {
+				loadsTree = true
+			}
+			if hasSuffixAny(n, ".InsertObject", ".DeleteObject", ".OverwriteObject", ".InsertRecord", ".UpdateRecord", ".DeleteRecord", ".DeleteRecordLazy", ".DeleteRecordWithRebalancing",
+				"core.ModifyDenseAttribute", "core.DeleteDenseAttribute") {
+				mutates = true
+			}
+		}
+		if !(loadsHeap && loadsTree && mutates) {
+			continue
+		}
+		for _, ret := range successReturns(fn) {
+			okH := mustPrecede(ret, func(in ssa.Instruction) bool {
+				call, ok := in.(*ssa.Call)
+				return ok && callName(c, call) == "structures.WritableFractalHeap.WriteAt"
+			})
+			okT := mustPrecede(ret, func(in ssa.Instruction) bool {
+				call, ok := in.(*ssa.Call)
+				return ok && callName(c, call) == "structures.WritableBTreeV2.WriteAt"
+			})
+			r.Check(okH, rule, c.Name(fn)+"#heap-written-back", c.InstrPos(ret), "the modified heap is written back before success")
+			r.Check(okT, rule, c.Name(fn)+"#index-written-back", c.InstrPos(ret), "the modified name index is written back before success")
+		}
+	}
 }
